@@ -69,7 +69,7 @@ from __future__ import annotations
 import ast
 import logging
 
-from mc import core
+from mc import core, observe
 from mc.ref import sf_ident as R
 
 PID = "C02"
@@ -518,8 +518,7 @@ def _exec(cur, sql, ordered):
 
 
 def _context(conn):
-    d = conn._duck_conn  # noqa: SLF001
-    d = getattr(d, "_r", d)
+    d = observe.engine_conn(conn)
     try:
         eng = d.execute("select current_database(), current_schema()").fetchall()[0]
     except Exception as e:  # noqa: BLE001
